@@ -14,6 +14,8 @@ suite `present` (C11): k renderings of one logical batch.
                of real `Item(T)` wrappers and explicit one-field records named `item` (column `item: Struct(schema)`,
                items = the records of rendering 0) give physically identical arrays / the same outcome, and the
                model of the wrappers' `Serialize` impls (`Build.serItems`, `Build.serItem`) reproduces them;
+               a case whose renderings are NOT all defined with equal rows is `na` for the first clause (tag
+               `not-one-batch`; the other tag is `one-batch`), the remaining clauses can still fail it;
           C16 no panic.
 -/
 namespace Driver.Suites.Present
@@ -64,7 +66,13 @@ def handle (j : Json) : Except String Verdict := do
     | .ok u, .ok v => u == v
     | _, _ => false)
   let c11 :=
-    if !allSame then "na"     -- generator produced renderings that are not one logical batch (should not happen)
+    -- not one logical batch: some rendering has a record WITHOUT a documented value, or the rows differ.  This does
+    -- happen (quick tier: about one case in nine): for a dictionary column whose value type is not Utf8 / LargeUtf8 the
+    -- generator also draws strings the value type does not parse, integers and unit variants, so the base record itself
+    -- is undefined.  C11 = `na`, tag `not-one-batch`; the comparison of model and crate per rendering, the malformed
+    -- renderings and the Item / Items comparison below are still judged and can turn the case into `fail`; that all
+    -- renderings are refused TOGETHER is not judged.
+    if !allSame then "na"
     else
       match outs.headD none with
       | none => if outs.all (·.isNone) then "pass" else "fail"
